@@ -88,6 +88,8 @@ def main(argv):
                             ['comp', ['Mixer'], [['api', ['IArb'], 'provides', False], ['ctrl', ['ICtl'], 'provides', False], ['hal', ['ICtl'], 'requires', False]]]]]]
     cases.append({'file': file, 'cfg': {'file': 'Mixer.dzn', 'enc': ['My', 'Mixer'], 'ports': {'p': [['w', 'none'], ['w', 'all']], 'r': [['w', 'none'], ['w', 'all']],
                                                                                            'mc': ['api', 'Acquire', ['Granted'], 'Relinquish']}}})
+    # event names containing one another, in both declaration orders, either one configured as claim / release
+    cases += SR.mc_name_containment_cases()[:2] if tier == 'quick' else SR.mc_name_containment_cases()
     suspects, breadth = SR.leg_a_suspects(rng, 60 if tier == 'quick' else 1000, want=lambda c: bool(c['cfg']['ports'].get('mc')))
     rep.extra['cases_compared_with_the_model_only'] = breadth
     cases += suspects
